@@ -486,7 +486,12 @@ def _windows(inv, fam):
         w = rs.width(s_)
         own = set(range(s_.offset, s_.offset + w)) if fam == "ES" else set(range(s_.offset, s_.offset + (w + 1) // 2))
         out.append((s_.id_, tn, own))
-    return out
+    # an id the tables list twice (meter_e_total_exp / imp: Float and Energy8) is reported from its LAST definition: every register of
+    # any of its definitions is its own
+    merged = {}
+    for sid, tn, own in out:
+        merged.setdefault(sid, set()).update(own)
+    return [(sid, tn, merged[sid]) for sid, tn, own in out]
 
 
 def foreign_job(job):
@@ -565,6 +570,76 @@ def _foreign_replay(case):
     return acc
 
 
+def _reference_value(sim, x):
+    """("ok", value) | ("undecodable", None): reference reading of sensor x from the simulator's register file"""
+    w = rs.width(x)
+    raw = sim.get_bytes(x.offset, (w + 1) // 2)
+    tn = rs.type_name(x)
+    own = raw[:2] if tn in ("ByteL", "EnumL") else raw[:w]
+    try:
+        return ("ok", rs.decode(x, own))
+    except rs.Undecodable:
+        return ("undecodable", None)
+
+
+def faulty_poll_job(job):
+    """read_runtime_data() in which request k gets no answer / a 'busy' exception frame, then a clean poll: whatever a poll RETURNS,
+    every typed value in it is the reference reading of the sensor's own registers (nothing is decoded from another block's answer)."""
+    from goodwe.exceptions import InverterError
+    from vlib import siminv
+    from vlib.harness import run_sync
+    from collections import Counter
+    ci, salt = job
+    cfg = FOREIGN_CONFIGS[ci]
+    fam = cfg["family"]
+    acc = Acc()
+    if fam == "ES":
+        return acc
+    for k in range(0, 8):
+        for kind in ("silent", "busy"):
+            inv, sim = _foreign_target(cfg, salt)
+            inner = inv._verif_responder
+
+            class _Once:
+                def __init__(self):
+                    self.n = None
+
+                def respond(self, data):
+                    if self.n is not None:
+                        self.n -= 1
+                        if self.n == -1:
+                            return None if kind == "silent" else inner.exception(data, 6)
+                    return inner.respond(data)
+
+                def __getattr__(self, name):
+                    return getattr(inner, name)
+            once = _Once()
+            siminv.attach_direct(inv, once)
+            for phase in ("faulty", "clean", "clean"):
+                once.n = k if phase == "faulty" else None
+                acc.case()
+                try:
+                    d = run_sync(inv.read_runtime_data())
+                except InverterError:
+                    continue
+                acc.nontrivial("faulty-poll", ci, k, kind, phase)
+                listed = Counter(x.id_ for x in inv.sensors())
+                for x in inv.sensors():
+                    if x.id_ not in d or listed[x.id_] != 1 or rs.type_name(x) in rs.COMPUTED or rs.width(x) is None:
+                        continue
+                    if fam == "ET" and x.id_ in ("apparent_power2", "apparent_power3"):
+                        continue      # beyond the MPPT window: the known finding of C14 / C16
+                    rk, want = _reference_value(sim, x)
+                    got = d[x.id_]
+                    if (rk == "undecodable" and got is not None) or (rk == "ok" and not rs.same(got, want) and repr(got) != repr(want)):
+                        acc.fail("C12|api-faulty-poll|%s|value-differs" % fam, "%s poll (request %d %s): %s = %r, the reference reading of its registers %d.. is %r" % (
+                            phase, k, "unanswered" if kind == "silent" else "answered 'busy'", x.id_, got, x.offset, want if rk == "ok" else "undecodable"),
+                            {"faulty_poll": True, "config": ci, "salt": salt})
+                        break
+    acc.sample({"faulty_poll": True, "config": ci, "salt": salt})
+    return acc
+
+
 def overlap_job(job):
     """Two single-value reads overlap on one inverter object (the same id twice, two ids on the same register, an id and the bulk
     read): each call still returns the documented reading of its own registers - computed here from the simulator's register file by
@@ -631,6 +706,8 @@ def overlap_job(job):
 
 
 def run(ctx):
+    ctx.shard(faulty_poll_job, [(ci, ctx.seed + k) for ci in range(len(FOREIGN_CONFIGS)) for k in range(ctx.pick(1, 3))],
+              "API level: a poll in which request k fails (no answer / busy), then clean polls - every typed value a poll returns equals the reference reading of its own registers")
     ctx.shard(overlap_job, [(ci, ctx.seed + k) for ci in range(len(FOREIGN_CONFIGS)) for k in range(ctx.pick(1, 4))],
               "API level: two single-value reads (same id / ids sharing a register / the bulk read) overlap on one object; each returns the reference reading of its own registers")
     parts = 5 if ctx.quick else 16
@@ -679,6 +756,9 @@ def replay(ctx, case):
         return
     if case.get("overlap"):
         ctx.acc.merge(overlap_job((case["config"], case["salt"])))
+        return
+    if case.get("faulty_poll"):
+        ctx.acc.merge(faulty_poll_job((case["config"], case["salt"])))
         return
     if case.get("api_foreign"):
         cfg = FOREIGN_CONFIGS[case["config"]]
